@@ -15,6 +15,7 @@ EXPLANATION = (
     "consulted. [ID-ACT] same for the Actisense header integer. [ID-BYTES] each writer/reader pair uses the same byte order for the 4 identifier bytes. [ID-USE] each frame-level writer calls _build_header itself, once per message, with the message's own PGN/source/destination/priority in those roles (interpreted over the provenance domain). "
     "Each obligation is per bit, hence exhaustive over all 2^29 identifiers. Nothing undecided inside the property's quantifier; out-of-range arguments "
     "(dest > 255, PGN > 18 bits) are outside it."
+    " The PF predicates may have any shape: both functions are evaluated per value of the bits their predicates consult (bitprov.cases; order comparisons decided from bounds), so `pf < 0xF0`, `pf >= 240`, `pgn & 0xFF00 < 0xF000`, helper functions and early returns are the same to the rule. ID-ACT and ID-BYTES are decided by composing each writer with its reader over symbolic inputs."
 )
 ASSUMPTIONS = ["CPython ast parser", "bitprov.py transfer functions for & | << >> on non-negative ints", "sym.py def-use substitution",
                "inputs are within their declared widths (priority 3, source 8, dest 8, PGN 18 bits)"]
